@@ -247,9 +247,28 @@ func caseIsolation(t *testing.T, tp *simrt.Tape, res *Result) {
 		h.model.AddWarrior(asAdded)
 		h.observe("AddWarrior", true)
 	}
+	// a third simulator with a smaller core adds the same shared data at a
+	// drawn moment: whatever it does with fields beyond its own core size, the
+	// caller's data and the other simulators must not notice
+	small := cfg.gi
+	small.CoreSize = gi.Address(max(3, int(M)/2))
+	small.ReadLimit, small.WriteLimit, small.Length, small.Distance = small.CoreSize, small.CoreSize, small.CoreSize, 0
+	smallAt := tp.Draw("iso.small.at", 12)
 	before := len(res.Viol)
 	nOps := 4 + tp.Draw("iso.len", 24)
 	for k := 0; k < nOps && !hA.dead && !hB.dead; k++ {
+		if k == smallAt {
+			safeCall(200000, func() {
+				if sm, err := gi.NewSimulator(small); err == nil {
+					for _, d := range pool {
+						sm.AddWarrior(d)
+					}
+					sm.SpawnWarrior(0, 0)
+					sm.RunCycle()
+				}
+			})
+			res.stat("probe.third-simulator-smaller-core", 1)
+		}
 		h := hA
 		if tp.Draw("iso.which", 2) == 1 {
 			h = hB
